@@ -93,7 +93,13 @@ def checkOp (ctx : Ctx) (orig impl : Json) : Except String Json := do
       let trig := [("F2", Spec.Trig.f2 m tf prior)]
       if panicked impl then return res [("C06", b false)] trig
       let expected := match tf with | .obj _ _ as _ => (Spec.c06FromLevel m.fields (as.getD [])).map encDiag | _ => []
-      return res [("C06", b (expected.all fun d => (diagStrings impl).contains d))] trig
+      -- every depth: the diagnostics C06 demands, as a set of (kind, path); each must be reported and nothing else
+      let deep := match tf with | .obj _ _ as _ => Spec.c06Fields m.fields (as.getD []) | _ => []
+      let actual := diagStrings impl
+      let hit (e : String × String) (s : String) : Bool :=
+        if e.1 == "missing" then s == encDiag (.readMissing e.2) else s.startsWith (encDiag (.readConv e.2 ""))
+      let deepOK := deep.all (fun e => actual.any (hit e)) && actual.all (fun s => deep.any (fun e => hit e s))
+      return res [("C06", b (deepOK && expected.all fun d => actual.contains d))] trig
     | "to-malformed" =>
       let obj ← structArg (← fld orig "obj")
       let trig := [("F1b", Spec.Trig.f1b m obj)]
